@@ -125,7 +125,7 @@ def run(ck):
     from . import c14 as _c14
     _c14.copy_identity(ck, P)
     from .. import condparity
-    ck.floor("SIB/ref-conditions", condparity.check(ck, P, "SIB/ref-conditions", only={"deflate_stored.c:deflate_stored", "deflate.c:fill_window", "deflate_fast.c:deflate_fast", "deflate_slow.c:deflate_slow", "deflate_medium.c:deflate_medium", "deflate_medium.c:emit_match", "deflate_medium.c:insert_match", "deflate_medium.c:fizzle_matches", "deflate_quick.c:deflate_quick", "deflate_rle.c:deflate_rle", "deflate_huff.c:deflate_huff", "trees.c:zng_tr_flush_block", "trees.c:gen_bitlen", "trees.c:build_tree", "trees.c:scan_tree", "trees.c:build_bl_tree", "deflate.c:deflate"}), 130)
+    ck.floor("SIB/ref-conditions", condparity.check(ck, P, "SIB/ref-conditions", only={"trees.c:send_all_trees", "trees.c:compress_block", "trees.c:init_block", "trees.c:zng_tr_stored_block", "trees.c:gen_codes", "trees.c:pqdownheap", "match_tpl.h:LONGEST_MATCH", "deflate.c:lm_init", "deflate_stored.c:deflate_stored", "deflate.c:fill_window", "deflate_fast.c:deflate_fast", "deflate_slow.c:deflate_slow", "deflate_medium.c:deflate_medium", "deflate_medium.c:emit_match", "deflate_medium.c:insert_match", "deflate_medium.c:fizzle_matches", "deflate_quick.c:deflate_quick", "deflate_rle.c:deflate_rle", "deflate_huff.c:deflate_huff", "trees.c:zng_tr_flush_block", "trees.c:gen_bitlen", "trees.c:build_tree", "trees.c:scan_tree", "trees.c:build_bl_tree", "deflate.c:deflate"}), 130)
     from .. import refwrites
     ck.floor("SIB/ref-writes", refwrites.check(ck, P, "SIB/ref-writes", only={"deflate.c:deflateTune", "deflate.c:deflateParams", "deflate.c:fill_window", "deflate.c:lm_init", "deflate.c:lm_set_level", "deflate_fast.c:deflate_fast", "deflate_slow.c:deflate_slow", "deflate_medium.c:deflate_medium", "deflate_quick.c:deflate_quick", "deflate_rle.c:deflate_rle", "deflate_huff.c:deflate_huff", "deflate_stored.c:deflate_stored"}), 40)
     ck.extra["values_compared"] = n
